@@ -466,6 +466,15 @@ impl<'a> Gen<'a> {
                     }
                 }
                 let is_const = self.rng.chance(1, 6);
+                // a function-local static (it keeps its value between calls), const or not
+                if self.rng.chance(1, 12) {
+                    if let Ty::V(_, _) = t {
+                        let e = self.const_expr(&t, 1);
+                        *out += &format!("{}static {}{} {} = {};\n", ind, if is_const { "const " } else { "" }, tn, name, e);
+                        self.locals.last_mut().unwrap().push(Var { name, ty: t, lv: !is_const, arr: None });
+                        return;
+                    }
+                }
                 let e = self.loose(&t, 3);
                 let second = if self.rng.chance(1, 10) { let n2 = self.fresh("m"); let e2 = self.expr(&t, 1); Some((n2, e2)) } else { None };
                 match &second {
